@@ -637,12 +637,12 @@ var malformed = []string{
 
 func (p *prop) Generate(rng *core.Rand, tier string, emit func(string)) {
 	p.setup()
-	nScen, maxCfgs, storms, stormLen := 30, 5, 1, 30
+	nScen, maxCfgs, storms, stormLen := 45, 5, 1, 40
 	switch tier {
 	case "thorough":
-		nScen, maxCfgs, storms, stormLen = 200, 7, 3, 150
+		nScen, maxCfgs, storms, stormLen = 400, 8, 4, 200
 	case "search":
-		nScen, maxCfgs, storms, stormLen = 120, 6, 3, 80
+		nScen, maxCfgs, storms, stormLen = 120, 6, 2, 60
 	}
 	do := func(sc scenario) {
 		if p.envErr != nil {
